@@ -50,7 +50,11 @@ THEOREMS = ['C07_plane_intersection_on_both', 'C07_plane_intersection_direction'
             'C07_regular_hexagon_in_family', 'C07_domain_check_spec',
             'C07_domain_check_error', 'C07_lattice_vector',
             'C07_rhp_cell_hypotheses', 'C07_rhp15_lattice_vectors',
-            'C07_rhp9_lattice_vectors', 'C07_hex_lattice_developed']
+            'C07_rhp9_lattice_vectors', 'C07_hex_lattice_developed',
+            'C07_base_vectors_wrong_count', 'C07_intersection_error_iff',
+            'C07_sort_sides_outcomes', 'C07_base_vectors_parallel_planes',
+            'C07_collinear_sides_parallel', 'C07_walk_ends_iff_closed_tour',
+            'C07_sort_count_error']
 TRUSTED = [
     'hand-written model coq/C07/Model.v (modelled, tied by execution only)',
     'binary64 evaluation: the theorems are over R; the model is run at '
